@@ -106,6 +106,37 @@ func registerTimeIntrinsics(reg func(string, intrinsicFn)) {
 		return w.timeStruct(ms)
 	})
 	reg("time.UnixMilli", func(w *World, th *Thread, fn *ssa.Function, args []Value) Value { return w.timeStruct(args[0]) })
+	reg(vrtPkg+".WaitQuiescent", func(w *World, th *Thread, fn *ssa.Function, args []Value) Value {
+		// implemented as a receive from a very long timer
+		key := fmt.Sprintf("waitq:%d", th.id)
+		if t, ok := w.userData[key].(*timerObj); ok {
+			if t.fired {
+				delete(w.userData, key)
+				if !w.visible(th, &pendingOp{kind: opYield, desc: "WaitQuiescent(done)"}) {
+					return blocked
+				}
+				return nil
+			}
+			th.pending = &pendingOp{kind: opRecv, ch: t.ch, desc: "WaitQuiescent"}
+			if th.granted {
+				th.granted = false
+			}
+			if len(t.ch.buf) > 0 {
+				t.ch.buf = nil
+				th.pending = nil
+				delete(w.userData, key)
+				return nil
+			}
+			return blocked
+		}
+		t := w.newTimer("WaitQuiescent")
+		t.dur = 1 << 62
+		w.nextChan++
+		t.ch = &Chan{id: w.nextChan, cap: 1, et: types.Typ[types.Int]}
+		w.userData[key] = t
+		th.pending = &pendingOp{kind: opRecv, ch: t.ch, desc: "WaitQuiescent"}
+		return blocked
+	})
 	reg("time.Sleep", func(w *World, th *Thread, fn *ssa.Function, args []Value) Value {
 		if !w.visible(th, &pendingOp{kind: opYield, desc: "time.Sleep"}) {
 			return blocked
@@ -141,6 +172,7 @@ func registerTimeIntrinsics(reg func(string, intrinsicFn)) {
 	}
 	reg("time.After", func(w *World, th *Thread, fn *ssa.Function, args []Value) Value {
 		t := w.newTimer("After")
+		t.dur, _ = args[0].(int64)
 		t.ch = mkTimerChan(w, fn)
 		return t.ch
 	})
@@ -151,6 +183,7 @@ func registerTimeIntrinsics(reg func(string, intrinsicFn)) {
 	})
 	reg("time.NewTimer", func(w *World, th *Thread, fn *ssa.Function, args []Value) Value {
 		t := w.newTimer("NewTimer")
+		t.dur, _ = args[0].(int64)
 		t.ch = mkTimerChan(w, fn)
 		tt := fn.Signature.Results().At(0).Type().(*types.Pointer).Elem()
 		s := zero(tt).(Struct)
@@ -183,6 +216,7 @@ func registerTimeIntrinsics(reg func(string, intrinsicFn)) {
 	})
 	reg("time.AfterFunc", func(w *World, th *Thread, fn *ssa.Function, args []Value) Value {
 		t := w.newTimer("AfterFunc")
+		t.dur, _ = args[0].(int64)
 		t.fn = args[1]
 		tt := fn.Signature.Results().At(0).Type().(*types.Pointer).Elem()
 		p := new(Value)
